@@ -314,6 +314,9 @@ func flattenHelpers(pkgs []*packages.Package) (map[string][]byte, []string) {
 	if !inlineMinimal && in.ungroupFields() {
 		return in.printOverlay(nil)
 	}
+	if !inlineMinimal && in.lowerResultDefers() {
+		return in.printOverlay(nil)
+	}
 	for obj, fd := range in.decls {
 		if baselineFuncs[obj.FullName()] {
 			continue
@@ -1362,6 +1365,14 @@ func (in *inliner) rewriteList(p *packages.Package, f *ast.File, list []ast.Stmt
 				s = chain
 				changed = true
 			}
+		}
+		// `for h(x) { body }`  =>  `for { if !h(x) { break }; body }`: the condition is evaluated at the top of every
+		// iteration either way (the post statement stays where it is), and as the condition of an if the call can be expanded
+		if fs, ok := s.(*ast.ForStmt); ok && fs.Cond != nil && fs.Init == nil && fs.Body != nil && in.containsHelperCall(p, fs.Cond) && !bodyBreaksOutOfSwitch(fs.Body) {
+			guard := &ast.IfStmt{Cond: &ast.UnaryExpr{Op: token.NOT, X: &ast.ParenExpr{X: fs.Cond}}, Body: &ast.BlockStmt{List: []ast.Stmt{&ast.BranchStmt{Tok: token.BREAK}}}}
+			fs.Body.List = append([]ast.Stmt{guard}, fs.Body.List...)
+			fs.Cond = nil
+			changed = true
 		}
 		// `defer h(a, b)` / `go h(a, b)` on a helper => arguments bound now, `defer func() { h(a', b') }()`: the call inside
 		// the literal is then expanded like any other (next round)
@@ -3800,6 +3811,249 @@ func (in *inliner) ungroupFields() bool {
 				in.inlined["(fields ungrouped) "+sName+"."+fName+" "+tid.Name]++
 				did = true
 				break // one field per struct per round: the declaration list changed
+			}
+		}
+	}
+	return did
+}
+
+
+// bodyBreaksOutOfSwitch is a placeholder for shapes in which a guard prepended to a loop body could change what a
+// `break` refers to: the guard is the first statement of the body and its `break` is directly in the loop, so none does.
+func bodyBreaksOutOfSwitch(*ast.BlockStmt) bool { return false }
+
+// lowerResultDefers: `defer func() { if <cond on named results> { cleanup } }()` at the top level of a function of the
+// module - the "dispose unless we succeed" idiom - is written out: every `return E` after it becomes
+// `{ results = E; if cond { cleanup }; return results }`. That is what the deferred literal does on every normal return
+// when it is the last defer registered, only reads the results, and neither returns nor recovers; the rules then see
+// the clean-up on the failing ways out, where the reference tree has it. (A panic would run the literal too; no rule
+// reasons about panicking executions of these functions.) A round of its own.
+func (in *inliner) lowerResultDefers() bool {
+	did := false
+	for _, p := range in.pkgs {
+		if !strings.HasPrefix(p.PkgPath, modulePath) || p.Types == nil {
+			continue
+		}
+		for _, f := range p.Syntax {
+			for _, d := range f.Decls {
+				fd, ok := d.(*ast.FuncDecl)
+				if !ok || fd.Body == nil || fd.Type.Results == nil {
+					continue
+				}
+				var names []string
+				named := true
+				for _, fld := range fd.Type.Results.List {
+					if len(fld.Names) == 0 {
+						named = false
+					}
+					for _, nm := range fld.Names {
+						if nm.Name == "_" {
+							named = false
+						}
+						names = append(names, nm.Name)
+					}
+				}
+				if !named || len(names) == 0 {
+					continue
+				}
+				isResult := map[types.Object]bool{}
+				for _, fld := range fd.Type.Results.List {
+					for _, nm := range fld.Names {
+						isResult[p.TypesInfo.Defs[nm]] = true
+					}
+				}
+				for i, st := range fd.Body.List {
+					ds, ok := st.(*ast.DeferStmt)
+					if !ok {
+						continue
+					}
+					lit, ok := ds.Call.Fun.(*ast.FuncLit)
+					if !ok || len(ds.Call.Args) != 0 || len(lit.Type.Params.List) != 0 || lit.Type.Results != nil || len(lit.Body.List) != 1 {
+						continue
+					}
+					ifs, ok := lit.Body.List[0].(*ast.IfStmt)
+					if !ok || ifs.Init != nil || ifs.Else != nil {
+						continue
+					}
+					// the condition reads a result; the literal never writes one, returns or recovers
+					readsResult, clean := false, true
+					ast.Inspect(ifs.Cond, func(n ast.Node) bool {
+						switch x := n.(type) {
+						case *ast.Ident:
+							if isResult[p.TypesInfo.Uses[x]] {
+								readsResult = true
+							}
+						case *ast.CallExpr:
+							clean = false
+						}
+						return true
+					})
+					ast.Inspect(ifs.Body, func(n ast.Node) bool {
+						switch x := n.(type) {
+						case *ast.ReturnStmt, *ast.FuncLit, *ast.DeferStmt, *ast.GoStmt:
+							clean = false
+						case *ast.CallExpr:
+							if id, ok := x.Fun.(*ast.Ident); ok && id.Name == "recover" {
+								clean = false
+							}
+						case *ast.AssignStmt:
+							for _, l := range x.Lhs {
+								if id, ok := l.(*ast.Ident); ok && (isResult[p.TypesInfo.Uses[id]] || isResult[p.TypesInfo.Defs[id]]) {
+									clean = false
+								}
+							}
+						case *ast.UnaryExpr:
+							if x.Op == token.AND {
+								if id, ok := x.X.(*ast.Ident); ok && isResult[p.TypesInfo.Uses[id]] {
+									clean = false
+								}
+							}
+						}
+						return true
+					})
+					if !readsResult || !clean {
+						continue
+					}
+					// the last defer of the function, and no result is shadowed where a return stands (kept simple: no
+					// declaration of a result's name after the defer)
+					later := true
+					for _, st2 := range fd.Body.List[i+1:] {
+						ast.Inspect(st2, func(n ast.Node) bool {
+							switch x := n.(type) {
+							case *ast.DeferStmt:
+								later = false
+							case *ast.FuncLit:
+								return false
+							case *ast.AssignStmt:
+								if x.Tok == token.DEFINE {
+									for _, l := range x.Lhs {
+										if id, ok := l.(*ast.Ident); ok {
+											for _, nm := range names {
+												if id.Name == nm {
+													later = false
+												}
+											}
+										}
+									}
+								}
+							case *ast.ValueSpec:
+								for _, id := range x.Names {
+									for _, nm := range names {
+										if id.Name == nm {
+											later = false
+										}
+									}
+								}
+							}
+							return true
+						})
+					}
+					if !later {
+						continue
+					}
+					lower := func(rs *ast.ReturnStmt) ast.Stmt {
+						var list []ast.Stmt
+						var res []ast.Expr
+						for _, nm := range names {
+							res = append(res, ast.NewIdent(nm))
+						}
+						if len(rs.Results) > 0 {
+							if len(rs.Results) != len(names) {
+								return nil // return f() with several results
+							}
+							var lhs []ast.Expr
+							for _, nm := range names {
+								lhs = append(lhs, ast.NewIdent(nm))
+							}
+							selfAssign := true
+							for k, r := range rs.Results {
+								if id, ok := r.(*ast.Ident); !ok || id.Name != names[k] {
+									selfAssign = false
+								}
+							}
+							if !selfAssign {
+								list = append(list, &ast.AssignStmt{Lhs: lhs, Tok: token.ASSIGN, Rhs: rs.Results})
+							}
+						}
+						// `return nil` under `if err != nil { ... }`: the clean-up cannot run on this way out
+						skip := false
+						if be, ok := ast.Unparen(ifs.Cond).(*ast.BinaryExpr); ok && be.Op == token.NEQ && len(rs.Results) == len(names) {
+							if id, ok := be.X.(*ast.Ident); ok {
+								if nl, ok := be.Y.(*ast.Ident); ok && nl.Name == "nil" {
+									for k, nm := range names {
+										if nm == id.Name {
+											if rid, ok := rs.Results[k].(*ast.Ident); ok && rid.Name == "nil" {
+												skip = true
+											}
+										}
+									}
+								}
+							}
+						}
+						if !skip {
+							list = append(list, copyNode(ifs).(ast.Stmt))
+						}
+						list = append(list, &ast.ReturnStmt{Results: res})
+						return &ast.BlockStmt{List: list}
+					}
+					ok2 := true
+					var walkList func(list []ast.Stmt)
+					var walkStmt func(s ast.Stmt)
+					walkList = func(list []ast.Stmt) {
+						for k, s := range list {
+							if rs, isRet := s.(*ast.ReturnStmt); isRet {
+								if b := lower(rs); b != nil {
+									list[k] = b
+								} else {
+									ok2 = false
+								}
+								continue
+							}
+							walkStmt(s)
+						}
+					}
+					walkStmt = func(s ast.Stmt) {
+						switch x := s.(type) {
+						case *ast.BlockStmt:
+							walkList(x.List)
+						case *ast.IfStmt:
+							walkList(x.Body.List)
+							if x.Else != nil {
+								walkStmt(x.Else)
+							}
+						case *ast.ForStmt:
+							walkList(x.Body.List)
+						case *ast.RangeStmt:
+							walkList(x.Body.List)
+						case *ast.SwitchStmt:
+							walkList(x.Body.List)
+						case *ast.TypeSwitchStmt:
+							walkList(x.Body.List)
+						case *ast.SelectStmt:
+							walkList(x.Body.List)
+						case *ast.CaseClause:
+							walkList(x.Body)
+						case *ast.CommClause:
+							walkList(x.Body)
+						case *ast.LabeledStmt:
+							walkStmt(x.Stmt)
+						}
+					}
+					// dry run on a copy first: a `return f()` with several results cannot be lowered
+					trial := copyNode(&ast.BlockStmt{List: fd.Body.List[i+1:]}).(*ast.BlockStmt)
+					walkList(trial.List)
+					if !ok2 {
+						continue
+					}
+					rest := append([]ast.Stmt{}, fd.Body.List[i+1:]...)
+					walkList(rest)
+					fd.Body.List = append(append([]ast.Stmt{}, fd.Body.List[:i]...), rest...)
+					in.changed[in.fset.Position(f.Pos()).Filename] = f
+					in.n++
+					in.inlined["(defer lowered) "+fd.Name.Name]++
+					did = true
+					break
+				}
 			}
 		}
 	}
